@@ -1657,5 +1657,275 @@ theorem handleMouse_ext {cfg : Cfg} {P : LogItem → Prop} {ev : Ev} (hp : Route
   | zero => intro st c e st' r _ h; simp [handleMouse] at h
   | succ f ih => exact handleMouseBody_ext hp ih f
 
+/-! ### first occurrences, prefixes -/
+
+theorem firstOccAux_prefix : ∀ (xs ys seen : List WinTree.Id), firstOccAux seen xs <+: firstOccAux seen (xs ++ ys) := by
+  intro xs
+  induction xs with
+  | nil => intro ys seen; exact List.nil_prefix
+  | cons x xs ih =>
+    intro ys seen
+    simp only [List.cons_append, firstOccAux]
+    by_cases hx : x ∈ seen
+    · simp only [hx, if_true]; exact ih ys seen
+    · simp only [hx, if_false]; exact (List.prefix_cons_inj x).2 (ih ys (x :: seen))
+
+theorem firstOcc_prefix {xs ws : List WinTree.Id} (h : xs <+: ws) : firstOcc xs <+: firstOcc ws := by
+  obtain ⟨ys, rfl⟩ := h
+  exact firstOccAux_prefix xs ys []
+
+theorem offerAll_prefix (k : Kind) : ∀ (ws : List (WinTree.Id × Ev)) (b : Array Binding), (offerAll b k ws).2.1 <+: ws := by
+  intro ws
+  induction ws with
+  | nil => intro b; simp [offerAll]
+  | cons x xs ih =>
+    intro b
+    obtain ⟨w, e⟩ := x
+    simp only [offerAll]
+    by_cases hc : (offerOne b k w).2 = true
+    · simp only [hc, if_true]; exact (List.prefix_cons_inj _).2 List.nil_prefix
+    · simp only [hc, Bool.false_eq_true, if_false]; exact (List.prefix_cons_inj _).2 (ih _)
+
+theorem offerAll_none (k : Kind) : ∀ (ws : List (WinTree.Id × Ev)) (b : Array Binding),
+    (offerAll b k ws).2.2 = none → (offerAll b k ws).2.1 = ws := by
+  intro ws
+  induction ws with
+  | nil => intro b _; simp [offerAll]
+  | cons x xs ih =>
+    intro b h
+    obtain ⟨w, e⟩ := x
+    simp only [offerAll] at h ⊢
+    by_cases hc : (offerOne b k w).2 = true
+    · simp [hc] at h
+    · simp only [hc, Bool.false_eq_true, if_false] at h ⊢
+      rw [ih _ h]
+
+/-- The window that claims is the last one offered; everything before it was offered and declined. -/
+theorem offerAll_some (k : Kind) : ∀ (ws : List (WinTree.Id × Ev)) (b : Array Binding) (w : WinTree.Id),
+    (offerAll b k ws).2.2 = some w →
+    ∃ pre e post, ws = pre ++ (w, e) :: post ∧ (offerAll b k ws).2.1 = pre ++ [(w, e)] ∧
+      (offerAll b k pre).2.2 = none ∧ (offerOne (offerAll b k pre).1 k w).2 = true := by
+  intro ws
+  induction ws with
+  | nil => intro b w h; simp [offerAll] at h
+  | cons x xs ih =>
+    intro b w h
+    obtain ⟨w0, e0⟩ := x
+    simp only [offerAll] at h ⊢
+    by_cases hc : (offerOne b k w0).2 = true
+    · simp only [hc, if_true, Option.some.injEq] at h ⊢
+      subst h
+      exact ⟨[], e0, xs, rfl, rfl, rfl, hc⟩
+    · simp only [hc, Bool.false_eq_true, if_false] at h ⊢
+      obtain ⟨pre, e, post, h1, h2, h3, h4⟩ := ih _ w h
+      refine ⟨(w0, e0) :: pre, e, post, by rw [h1]; rfl, by rw [h2]; rfl, ?_, ?_⟩
+      · simp only [offerAll, hc, Bool.false_eq_true, if_false]; exact h3
+      · simp only [offerAll, hc, Bool.false_eq_true, if_false]; exact h4
+
+/-! ### only visible windows are in the reference orders -/
+
+theorem visitList_mem {α : Type} {g : WinTree.Id → Option (List α)} : ∀ {cs : List WinTree.Id} {ws : List α} {x : α},
+    visitList g cs = some ws → x ∈ ws → ∃ c ∈ cs, ∃ l, g c = some l ∧ x ∈ l := by
+  intro cs
+  induction cs with
+  | nil => intro ws x h hx; simp only [visitList, Option.some.injEq] at h; subst h; cases hx
+  | cons c rest ih =>
+    intro ws x h hx
+    obtain ⟨a, b, ha, hb, rfl⟩ := visitList_cons_some h
+    rcases List.mem_append.1 hx with h1 | h2
+    · exact ⟨c, List.mem_cons_self .., a, ha, h1⟩
+    · obtain ⟨c', hc', l, hl, hxl⟩ := ih hb h2
+      exact ⟨c', List.mem_cons_of_mem _ hc', l, hl, hxl⟩
+
+theorem keyVisits_visible (t : Tree) : ∀ (F : Nat) (win : WinTree.Id) (ws : List WinTree.Id),
+    keyVisits t F win = some ws → ∀ x ∈ ws, visibleChain t (treeFuel t) x = true := by
+  intro F
+  induction F with
+  | zero => intro win ws h; simp [keyVisits] at h
+  | succ F ih =>
+    intro win ws h x hx
+    unfold keyVisits at h
+    cases hw : t.wins[win]? with
+    | none => simp only [hw, Option.some.injEq] at h; subst h; cases hx
+    | some w =>
+      simp only [hw] at h
+      by_cases hv : visibleChain t (treeFuel t) win = true
+      · simp only [hv, Bool.not_true, Bool.false_eq_true, if_false] at h
+        cases ha : stealVisits t (keyVisits t F) w with
+        | none => simp [ha] at h
+        | some a =>
+          cases hb : focusVisits (keyVisits t F) w with
+          | none => simp [ha, hb] at h
+          | some b =>
+            cases hc : restVisits (keyVisits t F) w with
+            | none => simp [ha, hb, hc] at h
+            | some c =>
+              simp [ha, hb, hc] at h
+              subst h
+              simp only [List.mem_append, List.mem_cons] at hx
+              rcases hx with hx | hx | hx | hx
+              · unfold stealVisits at ha
+                cases hh : w.children.head? with
+                | none => simp only [hh] at ha; cases ha; cases hx
+                | some fc =>
+                  simp only [hh] at ha
+                  by_cases hs : stealAt t fc = true
+                  · simp only [hs, if_true] at ha; exact ih fc a ha x hx
+                  · simp only [hs, Bool.false_eq_true, if_false] at ha; cases ha; cases hx
+              · unfold focusVisits at hb
+                cases hh : w.focusedChild with
+                | none => simp only [hh] at hb; cases hb; cases hx
+                | some fc => simp only [hh] at hb; exact ih fc b hb x hx
+              · subst hx; exact hv
+              · unfold restVisits at hc
+                obtain ⟨c', _, l, hl, hxl⟩ := visitList_mem hc hx
+                by_cases hf : w.focusedChild = some c'
+                · simp only [hf, if_true] at hl; cases hl; cases hxl
+                · simp only [hf, if_false] at hl; exact ih c' l hl x hxl
+      · have hv' : visibleChain t (treeFuel t) win = false := by simpa using hv
+        simp only [hv', Bool.not_false, if_true, Option.some.injEq] at h
+        subst h; cases hx
+
+theorem visibleChain_alive {t : Tree} : ∀ {f : Nat} {i : WinTree.Id}, visibleChain t f i = true →
+    ∃ w, t.wins[i]? = some w ∧ w.freed = false ∧ w.isVisible = true := by
+  intro f i h
+  cases f with
+  | zero => simp [visibleChain] at h
+  | succ f =>
+    unfold visibleChain at h
+    cases hw : t.wins[i]? with
+    | none => simp [hw] at h
+    | some w =>
+      simp only [hw] at h
+      by_cases hc : (w.freed || !w.isVisible) = true
+      · simp [hc] at h
+      · refine ⟨w, rfl, ?_, ?_⟩ <;> cases hf : w.freed <;> cases hv : w.isVisible <;> simp_all
+
+/-- `mouse_relative`, at the level of the reference order: every window is given the event's kind and its position
+    minus the window's own absolute origin. -/
+theorem mouseVisits_relative {t : Tree} (hwf : WF t) : ∀ (F : Nat) (win : WinTree.Id) (ev : Ev) (ws : List (WinTree.Id × Ev))
+    (a b : Int), mouseVisits t F win ev = some ws → OriginSum t (some win) a b →
+    ∀ x e, (x, e) ∈ ws → visibleChain t (treeFuel t) x = true ∧ sameKind ev e ∧
+      ∃ a' b', OriginSum t (some x) a' b' ∧ e.line = ev.line - (a' - a) ∧ e.col = ev.col - (b' - b) := by
+  intro F
+  induction F with
+  | zero => intro win ev ws a b h; simp [mouseVisits] at h
+  | succ F ih =>
+    intro win ev ws a b h ho x e hx
+    unfold mouseVisits at h
+    cases hw : t.wins[win]? with
+    | none => simp only [hw, Option.some.injEq] at h; subst h; cases hx
+    | some w =>
+      simp only [hw] at h
+      by_cases hv : visibleChain t (treeFuel t) win = true
+      · simp only [hv, Bool.not_true, Bool.false_eq_true, if_false] at h
+        cases hb : visitList (childVisits t (mouseVisits t F) ev) w.children with
+        | none => simp [hb] at h
+        | some below =>
+          simp [hb] at h
+          subst h
+          rcases List.mem_append.1 hx with h1 | h2
+          · obtain ⟨c, hc, l, hl, hxl⟩ := visitList_mem hb h1
+            unfold childVisits at hl
+            cases hcw : t.wins[c]? with
+            | none => simp [hcw] at hl; subst hl; cases hxl
+            | some cw =>
+              simp only [hcw] at hl
+              by_cases hin : (cw.stealInput || inChild cw ev.line ev.col) = true
+              · simp only [hin, if_true] at hl
+                obtain ⟨w', hw', hfr, _⟩ := visibleChain_alive hv
+                rw [hw] at hw'; cases hw'
+                have hpar : cw.parent = some win := hwf.parent win c w cw hw hfr hc hcw
+                have hoc : OriginSum t (some c) (a + cw.rect.top) (b + cw.rect.left) :=
+                  OriginSum.step hcw (by rw [hpar]; exact ho)
+                obtain ⟨hvx, hk, a', b', hox, hl', hc'⟩ := ih c (ev.toChild cw) l _ _ hl hoc x e hxl
+                refine ⟨hvx, hk, a', b', hox, ?_, ?_⟩
+                · rw [hl']; simp only [Ev.toChild]; omega
+                · rw [hc']; simp only [Ev.toChild]; omega
+              · simp [hin] at hl; subst hl; cases hxl
+          · simp only [List.mem_singleton, Prod.mk.injEq] at h2
+            obtain ⟨rfl, rfl⟩ := h2
+            exact ⟨hv, sameKind.rfl' _, a, b, ho, by omega, by omega⟩
+      · have : visibleChain t (treeFuel t) win = false := by simpa using hv
+        simp [this] at h; subst h; cases hx
+
+/-- `tickit_window_get_abs_geometry` computes that origin. -/
+theorem up_origin (t : Tree) : ∀ (f : Nat) (p : Option WinTree.Id) (g g' : Rect), absGeometry.up t f p g = Res.ok g' →
+    ∃ a b, OriginSum t p a b ∧ g'.top = g.top + a ∧ g'.left = g.left + b := by
+  intro f
+  induction f with
+  | zero => intro p g g' h; simp [absGeometry.up] at h
+  | succ f ih =>
+    intro p g g' h
+    cases p with
+    | none => simp only [absGeometry.up, res_pure, Res.ok.injEq] at h; subst h; exact ⟨0, 0, OriginSum.top, by omega, by omega⟩
+    | some p =>
+      simp only [absGeometry.up] at h
+      obtain ⟨pw, hpw, h⟩ := res_bind_eq_ok.1 h
+      obtain ⟨a, b, ho, h1, h2⟩ := ih _ _ _ h
+      refine ⟨a + pw.rect.top, b + pw.rect.left, OriginSum.step (get_eq_ok.1 hpw).1 ho, ?_, ?_⟩
+      · rw [h1]; simp only [Rect.translate]; omega
+      · rw [h2]; simp only [Rect.translate]; omega
+
+theorem absGeometry_origin {t : Tree} {f : Nat} {x : WinTree.Id} {g : Rect} (h : absGeometry t f x = Res.ok g) :
+    OriginSum t (some x) g.top g.left := by
+  unfold absGeometry at h
+  obtain ⟨w, hw, h⟩ := res_bind_eq_ok.1 h
+  obtain ⟨a, b, ho, h1, h2⟩ := up_origin t _ _ _ _ h
+  have := OriginSum.step (get_eq_ok.1 hw).1 ho
+  rw [h1, h2, Int.add_comm w.rect.top a, Int.add_comm w.rect.left b]; exact this
+
+theorem OriginSum.unique {t : Tree} : ∀ {p : Option WinTree.Id} {a b a' b' : Int}, OriginSum t p a b → OriginSum t p a' b' →
+    a = a' ∧ b = b' := by
+  intro p a b a' b' h1
+  induction h1 generalizing a' b' with
+  | top => intro h2; cases h2; exact ⟨rfl, rfl⟩
+  | step hw _ ih =>
+    intro h2
+    cases h2 with
+    | step hw' h' =>
+      rw [hw] at hw'; cases hw'
+      obtain ⟨e1, e2⟩ := ih h'
+      exact ⟨by rw [e1], by rw [e2]⟩
+
+/-! ### `on_term_mouse` -/
+
+theorem dropResult_ext {cfg : Cfg} {P : LogItem → Prop} (hq : Quiet P) {st st' : St} {r : Option WinTree.Id}
+    (h : dropResult cfg st r = Res.ok st') : Ext P st st' := by
+  unfold dropResult at h
+  cases r with
+  | none => simp only [res_pure, Res.ok.injEq] at h; subst h; exact Ext.refl _ _
+  | some x =>
+    simp only at h
+    by_cases hc : cfg.counted = true
+    · simp only [hc, if_true] at h; exact unrefLogged_ext hq h
+    · simp only [hc, Bool.false_eq_true, if_false, res_pure, Res.ok.injEq] at h; subst h; exact Ext.refl _ _
+
+theorem dragSourceSet_ext {cfg : Cfg} {P : LogItem → Prop} (hq : Quiet P) {st st' : St} {src : Option WinTree.Id}
+    (h : dragSourceSet cfg st src = Res.ok st') : Ext P st st' := by
+  unfold dragSourceSet at h
+  by_cases hc : cfg.counted = true
+  · simp only [hc, Bool.not_true, Bool.false_eq_true, if_false] at h
+    cases src with
+    | none => simp only [res_pure, Res.ok.injEq] at h; subst h; exact Ext.of_log rfl
+    | some x =>
+      simp only at h
+      have e2 := unrefLogged_ext (P := P) hq h
+      exact (Ext.of_log (P := P) (st := st) rfl).trans e2
+  · simp only [hc, Bool.not_false, if_true, res_pure, Res.ok.injEq] at h; subst h; exact Ext.of_log rfl
+
+/-- The dispatch of a synthesised event to the drag source. -/
+theorem toDragSource_ext {cfg : Cfg} {P : LogItem → Prop} {fuel : Nat} {st st' : St} {src : WinTree.Id} {type : Int} {ev : Ev}
+    (hp : ∀ l c, Routed cfg .mouse { type := type, button := ev.button, line := l, col := c } P)
+    (h : toDragSource cfg fuel st src type ev = Out.ok st') : Ext P st st' := by
+  unfold toDragSource at h
+  by_cases hal : (!isAlive st.tree src) = true
+  · simp [hal] at h
+  rw [if_neg hal] at h
+  simp only [out_bind_ok] at h
+  obtain ⟨geom, _, h⟩ := lift_bind_eq_ok.1 h
+  obtain ⟨⟨st1, r⟩, h1, h⟩ := out_bind_eq_ok.1 h
+  exact (handleMouse_ext (hp _ _) fuel _ _ _ _ _ (sameKind.rfl' _) h1).trans (dropResult_ext (hp 0 0).toQuiet (lift_eq_ok.1 h))
+
 end WinInput
 end Tickit
